@@ -16,7 +16,7 @@ becomes executable (SelectionAlgorithm::new_executable_transaction) only where i
 dependencies: the reviewed call sites, each guarded by `has_dependencies` false (directly or at the
 push into the promotion list); gather_best_txs extracts only ids taken from the executable map;
 (4) bfs enqueues every direct dependent of a removed node, returns every removed entry, and store_transaction
-adds an edge from every direct dependency.
+adds an edge from every direct dependency. (5) the dependency test of process_committed_transactions is asked about the very dependent that is pushed to the promotion list; in can_store_transaction the visited ancestor is inserted into the set before its size is compared with the chain limit.
 """
 NOT_DECIDED = """Graph-theoretic invariants as such (acyclicity is argued from the diamond/chain checks
 and edge direction); numeric chain limits."""
